@@ -687,8 +687,8 @@ func Run(r *hk.Run) {
 	seen := map[string]bool{}
 	for len(g.pool) < 6 {
 		c := r.R.Bytes(r.R.Intn(11))
-		if len(g.pool) == 2 {
-			c = nil // the empty blob
+		if len(g.pool) == 2 && !seen[mkBlob(nil).key] {
+			c = nil // the empty blob is always in the pool
 		}
 		b := mkBlob(c)
 		if !seen[b.key] {
